@@ -36,7 +36,13 @@ def run (kv : KV) : String :=
       -- what had been handed out was answered
       ("na", b01 (decide (toNatD (get kv "after") ≤ toNatD (get kv "base")) && get kv "answered" == get kv "taken" && get kv "aborted" == "0"
           && (!has kv "refused" || get kv "refused" == "1")),
-       "backlog:" ++ (if toNatD (get kv "n") > 8 then "gt8" else "le8"))
+       "backlog:" ++ (if toNatD (get kv "n") > 8 then "gt8" else "le8")
+         -- F13 (known finding): a refused request behind requests nobody received; the tag says that
+         -- nothing but the thread count is wrong and that at most one thread per such connection is left
+         ++ (if get kv "badlast" == "1" then ",srv:badlast" else "")
+         ++ (if get kv "badlast" == "1" && get kv "answered" == get kv "taken" && get kv "aborted" == "0"
+               && (!has kv "refused" || get kv "refused" == "1")
+               && decide (toNatD (get kv "after") ≤ toNatD (get kv "base") + toNatD (get kv "nbad")) then ",srv:badlast-leak" else ""))
     else ("na", "na", "unknown")
   "res id=" ++ get kv "id" ++ " agree=1 skip=0 aC08=1 aC20=1 C08=" ++ c08 ++ " C20=" ++ c20 ++ " tags=srv:" ++ tag ++ " diff=-"
 
